@@ -111,34 +111,41 @@ def run(ctx):
         if m.violated:
             raise MachineryFault("Tester.tla: the mechanism layer violates the requirement layer on the model: %s "
                                  "(a lead, not a verdict - see %s)" % (m.violated, m.out_path))
-        beh_paths.append(m.beh_path)
-    mains, runs, n = split_behaviours(ctx, beh_paths, "all")
-    if n == 0:
-        raise MachineryFault("no behaviours to replay (dead driver)")
-    ctx.notes["behaviours_emitted"] = n
-
-    # canaries: one expected verdict flipped, one expected log dropped, one exit status flipped
-    canary_ids = plant_canaries(ctx, runs)
-
-    res = replay(ctx, mains, runs, "all", modes="api,cli" if quick else "api,json,plain")
-    seen_canaries = {}
-    nres = 0
-    for r in ctx.read_results(res):
-        if r["id"] in canary_ids:
-            seen_canaries[r["id"]] = r
-            continue
-        nres += 1
-        ctx.add_result(r)
-    if nres != n:
-        raise MachineryFault("replayed %d of %d behaviours" % (nres, n))
-    for cid, want in canary_ids.items():
-        r = seen_canaries.get(cid)
-        if r is None:
-            raise MachineryFault("canary %s was not replayed" % cid)
-        obs = {i.get("obs") for i in (r.get("mismatch") or [])}
-        if want not in obs:
-            raise MachineryFault("canary %s: corrupted expectation was accepted (comparison is vacuous): %s" % (cid, sorted(obs)))
-    ctx.notes["canaries"] = sorted(canary_ids)
+    # quick: the API for every file + one of the two CLI modes, alternating; thorough: all three ways for the
+    # files of <= 2 tests, API + alternating CLI mode for the longer ones
+    if quick:
+        groups = [("all", [m.beh_path for m in runs_tlc], "api,cli")]
+    else:
+        groups = [("short", [runs_tlc[0].beh_path], "api,json,plain"), ("long", [m.beh_path for m in runs_tlc[1:]], "api,cli")]
+    total = 0
+    for gi, (gname, paths, modes) in enumerate(groups):
+        mains, runs, n = split_behaviours(ctx, paths, gname)
+        if n == 0:
+            raise MachineryFault("no behaviours to replay (dead driver)")
+        total += n
+        # canaries: one expected verdict flipped, one expected log dropped, one exit status flipped
+        canary_ids = plant_canaries(ctx, runs) if gi == 0 else {}
+        res = replay(ctx, mains, runs, gname, modes=modes)
+        seen_canaries = {}
+        nres = 0
+        for r in ctx.read_results(res):
+            if r["id"] in canary_ids:
+                seen_canaries[r["id"]] = r
+                continue
+            nres += 1
+            ctx.add_result(r)
+        if nres != n:
+            raise MachineryFault("replayed %d of %d behaviours" % (nres, n))
+        for cid, want in canary_ids.items():
+            r = seen_canaries.get(cid)
+            if r is None:
+                raise MachineryFault("canary %s was not replayed" % cid)
+            obs = {i.get("obs") for i in (r.get("mismatch") or [])}
+            if want not in obs:
+                raise MachineryFault("canary %s: corrupted expectation was accepted (comparison is vacuous): %s" % (cid, sorted(obs)))
+        if canary_ids:
+            ctx.notes["canaries"] = sorted(canary_ids)
+    ctx.notes["behaviours_emitted"] = total
 
 
 def plant_canaries(ctx, runs):
